@@ -103,7 +103,7 @@ struct MFiles {
 }
 
 const PIECES: [&str; 10] = ["src", "debian", "*", "?", "lib", ".c", "/", "x", "\\*", "doc"];
-const LICENSES: [&str; 4] = ["GPL-2+", "MIT", "Apache-2.0", "Expat"];
+const LICENSES: [&str; 6] = ["GPL-2+", "MIT", "Apache-2.0", "Expat", "GPL-2+ or MIT", "GPL-2+ with OpenSSL exception"];
 
 fn gen_pattern(r: &mut Rng) -> String {
     match r.below(6) {
